@@ -187,6 +187,16 @@ fn rev_oracle(c: &Case) -> Verdict {
             SCALE_NAMES[s], c.off, SCALE_NAMES[u], count(conv.duration), conv.time_scale, want_u, count(conv.duration) - want_u
         );
     }
+    // the identical reading in the other dynamical scale, converted right afterwards, is another instant: its own closed form
+    let twin = Epoch::from_duration(mk(c.off), SCALES[other]);
+    let rt = lib!(twin.to_time_scale(TimeScale::TAI));
+    let diff_t = (c.off - (count(rt.duration) - j2000_ns())) as f64;
+    let want_t = closed_form_ns(other, c.off);
+    ensure!(
+        (diff_t - want_t).abs() <= 30.0,
+        "{} count {} -> TAI (right after the same reading in {}): {} - TAI = {} ns, closed form {} ns (error {} ns > 30)",
+        SCALE_NAMES[other], c.off, SCALE_NAMES[s], SCALE_NAMES[other], diff_t, want_t, diff_t - want_t
+    );
     // the text form "SEC x ET" / "SEC x TDB" (x seconds past J2000 in the scale itself): if accepted, the same epoch as
     // the float-second constructor
     let txt = format!("SEC {} {}", x, SCALE_NAMES[s]);
